@@ -24,6 +24,7 @@ def run(project, rep):
     rep.run(S.m1_from_etree, schema, rep)
     rep.rule("V-R14", "every tag of a valid document names a class the reader can find: each model class used as a child is reachable as ofxtools.models.<TAG> (S-R2)")
     rep.run(S.s_r2_findable, schema, rep)
+    rep.run(S.s_r13_no_scale_on_document_amounts, schema, rep)
     rep.run(S.m2_update_args, schema, rep)
     rep.run(V.v_rules, schema, rep)
     rep.run(V.v_r8_token_tables, project, rep)
@@ -31,6 +32,7 @@ def run(project, rep):
     rep.run(S.s_r9_own_descriptor, schema, rep)
     from .. import rules_unknown as U
     rep.run(U.u_r9_overrides_only_retag, schema, rep)
+    rep.run(U.u_r11_no_edit_of_the_sequence_being_iterated, schema, rep)
     # an unknown tag in between changes nothing for the children after it: the reducer's unknown-tag branch hands back the
     # accumulator it received (U-R1), and in the loop form no carried state is assigned on the way to it (U-R1b)
     rep.run_only(("U-R1",), U.u_rules, schema, rep)
